@@ -559,21 +559,25 @@ func verifC16RandCase(rng interface {
 			cs.Reads = append(cs.Reads, 1+rng.Intn(2*cs.Max))
 		}
 	}
-	if cs.Max >= 1024 {
-		// keep the number of reads of a case bounded: no 1-byte reads over hundreds of kilobytes
-		total := 0
-		for _, m := range cs.Msgs {
-			total += m.Size
-		}
-		for i, r := range cs.Reads {
-			if total/r > 20000 {
-				cs.Reads[i] = total/20000 + 1
-			}
-		}
-	}
 	cs.Mode = "eager"
 	if cs.Variant == "server" {
 		cs.Mode = []string{"lazy", "lazy", "eager", "paced"}[rng.Intn(4)]
+	}
+	{
+		// keep the number of reads of a case bounded: no 1-byte reads over hundreds of kilobytes
+		total := cs.EndSize
+		for _, m := range cs.Msgs {
+			total += m.Size
+		}
+		limit := 20000
+		if cs.Mode == "paced" {
+			limit = 1500
+		}
+		for i, r := range cs.Reads {
+			if total/r > limit {
+				cs.Reads[i] = total/limit + 1
+			}
+		}
 	}
 	return cs
 }
